@@ -9,7 +9,10 @@
 typedef struct fiber_barrier {
   uint32_t count;
   _Atomic uint64_t counter;
-  mpsc_fifo_t waiters;
+  // waiters of consecutive rounds use separate queues: a fiber that re-enters
+  // the barrier for round k+1 must not be released by the serial fiber of
+  // round k, which may still be waiting for a late round-k arrival to enqueue
+  mpsc_fifo_t waiters[2];
 } fiber_barrier_t;
 
 #define FIBER_BARRIER_SERIAL_FIBER (1)
